@@ -118,6 +118,14 @@ CHECKS["C16"] = dict(
   note="Partial in the same sense as C08; expiry is modelled as eviction; Remove goroutines run uncontrolled in the harness.",
   technique="Coq proof (invariant over unbounded threads/schedules) + controlled-schedule exploration of real goroutines", design="6/C16")
 
+CHECKS["C14"] = dict(
+  text="Coq theorems: every SDK operation of every process, under every fault plan, only appends rows at absent (id, created) keys - nothing in the metastore is ever modified, removed or duplicated; "
+       "and for every world and fault plan the intermediate key generated by createIntermediateKey is either persisted (its row is in the store when it is handed out) or discarded (its secret is released "
+       "before the call returns). Tie: 2-3 real processes on one metastore, parked before every metastore call and released one at a time by seeded uniform/PCT schedules from cold, warm, IK/SK-expired and "
+       "IK/SK-revoked states; monitors = the property statement (chain stored at return, every process and a fresh process decrypt every record, no row modified, no generated key left live).",
+  note="Partial: interference between the metastore calls of ONE operation is not expressible in the sequential envelope model; convergence under such interleavings is decided by the schedule exploration on the real code, not proved.",
+  technique="Coq proof (frame theorem + per-call case analysis) + metastore-granularity schedule exploration of real processes", design="6/C14")
+
 NOT_APPLICABLE = []
 
 
